@@ -967,10 +967,10 @@ REQUIRED_CLASSES = {
 }
 
 PARTS = [
-    Part("hist", oracle_hist, strategy=hist_cases, quick=(8, 140), thorough=(16, 900)),
+    Part("hist", oracle_hist, strategy=hist_cases, quick=(8, 200), thorough=(16, 1300)),
     Part("grid", oracle_hist, enum=enum_grid, quick=(4, None), thorough=(16, None), exhaustive=True),
-    Part("relations", oracle_rel, strategy=rel_cases, quick=(4, 45), thorough=(16, 140)),
-    Part("rolloff", oracle_roll, strategy=roll_cases, quick=(4, 70), thorough=(16, 220)),
+    Part("relations", oracle_rel, strategy=rel_cases, quick=(4, 60), thorough=(16, 190)),
+    Part("rolloff", oracle_roll, strategy=roll_cases, quick=(4, 100), thorough=(16, 320)),
     Part("srs_frf", oracle_frf, strategy=frf_cases, quick=(1, 300), thorough=(8, 450)),
     Part("vrs", oracle_vrs, strategy=vrs_cases, quick=(1, 300), thorough=(8, 450)),
     # input classes that fail on the unchanged tree (genuine defects, see report / known_findings):
